@@ -117,24 +117,7 @@ def _sig_var_word_steals_option_value(w):
     return any(a[0] in ('sDet', 'lDet') and is_var_word(a[-1]) for a in (case.get('asgs') or []))
 
 
-def _sig_unknown_reporter_loader_name(w):
-    """F-C16f: path plug, the name is neither a core class nor defined in any plugin layer, and it is a loader name or a
-    reporter name that was not written on the command line"""
-    case = w.get('case') or {}
-    if case.get('path') != 'plug' or w.get('failed') != 'reject':
-        return False
-    defined = any(case['name'] in [n for n, _ in (lay or [])] for lay in case['layers'].values())
-    if defined or case['name'] in case['core']:
-        return False
-    impl = w.get('impl') or {}
-    if 'KeyError' not in str(impl.get('exc')):
-        return False
-    return ((case['cat'] == 'loader' and impl.get('pick') == 'escapes') or
-            (case['cat'] == 'reporter' and case['where'] in ('config', 'dodo') and impl.get('pick') == 'traceback3'))
-
-
 SIGNATURES = {'var-word-steals-option-value': _sig_var_word_steals_option_value,
-              'unknown-reporter-loader-name': _sig_unknown_reporter_loader_name,
               }
 
 PATHS = ['parse', 'parse', 'command', 'main', 'premain', 'task', 'runtask', 'creator']
